@@ -16,7 +16,8 @@ RULE = ("exhaustive walk of the decoder's own decision tree (a node is expanded 
         "and of arbitrary bytes under every encoding and mode, each also through the real find_key closure of "
         "Input._send, and again cut into 2-3 pieces handed over by consecutive unget_bytes() calls with and without send(0) "
         "in between; the other spellings of the three codecs (aliases, case/underscore variants, ANSI_X3.4-1968) on every "
-        "single byte and the children of waiting bytes; 9 sequences longer than MAX_KEYPRESS_SIZE (representation level); single bursts longer than READ_SIZE through the real "
+        "single byte and the children of waiting bytes; 9 sequences longer than MAX_KEYPRESS_SIZE (representation level); bursts handed over in 2-3 chunks by short reads (chunk boundary at every position inside every non-prefix "
+        "table sequence / 5 multi-byte characters); single bursts longer than READ_SIZE through the real "
         "Input object (default paste threshold) with every multi-byte table sequence that is not a prefix and 7 "
         "multi-byte characters at every alignment across offsets READ_SIZE and 2*READ_SIZE. non-trivial = distinct (operation, encoding, mode, full, bytes) with at least 2 bytes or a "
         "non-ASCII byte")
@@ -428,6 +429,42 @@ def oracle_burst(a):
     return (what, None)
 
 
+FILL = b"abcdefghij"       # 10 plain characters: the first chunk is above the default paste threshold, below READ_SIZE
+
+
+def oracle_chunks(a):
+    """a burst handed over in two or three chunks (short reads, the rest already queued): a sequence / character lying
+    across a chunk boundary is still ONE keypress under its name; bytes naming gives the burst back"""
+    enc, u, cuts = a
+    parts = [u[i:j] for i, j in zip((0,) + cuts, cuts + (len(u),))]
+    chunks = [FILL + parts[0]] + parts[1:-1] + [parts[-1] + AFTER]
+    name = ev.CURTSIES_NAMES[u] if u in ev.CURTSIES_NAMES else u.decode(ENCS[enc])
+    exp = [chr(c) for c in FILL] + [name] + [chr(c) for c in AFTER]
+    got = kc.chunks_through_input(chunks, enc)
+    if got != exp:
+        return "broken up or misreported at a chunk boundary: chunks %r: %s" % ([hx(c) for c in chunks], first_diff(got, exp))
+    gotb = kc.chunks_through_input(chunks, enc, mode="bytes")
+    if not all(isinstance(x, bytes) for x in gotb) or b"".join(gotb) != b"".join(chunks):
+        return "bytes naming: the keys do not concatenate to the burst (chunks %r): %r" % ([hx(c) for c in chunks], gotb[-6:])
+    return None
+
+
+def chunk_items(ctx):
+    seqs = [u for u in TABLE_KEYS if len(u) >= 2 and not kc.is_table_prefix(u)]
+    chars = ["\u00e9", "\u20ac", "\uffff", "\U0001f600", "\U0010ffff"]
+    items = []
+    for enc in ENCS:
+        units = (seqs if enc == "utf8" or ctx.thorough else seqs[ctx.rng.randrange(5)::5]) + \
+                ([c.encode("utf-8") for c in chars] if enc == "utf8" else [])
+        for u in units:
+            for k in range(1, len(u)):
+                items.append((enc, u, (k,)))
+            if len(u) >= 3:
+                k = ctx.rng.randrange(1, len(u) - 1)
+                items.append((enc, u, (k, ctx.rng.randrange(k + 1, len(u)))))
+    return items
+
+
 def burst_items(ctx):
     import curtsies.input as cinput
     R = cinput.READ_SIZE
@@ -769,6 +806,15 @@ def check(ctx, search=False):
     ctx.exhaustive.append("bursts through the real Input (one arrival): %d (unit, alignment 0..len, boundary) cases with the "
                           "default paste threshold, every 4th also with paste_threshold=None; curtsies and bytes naming"
                           % len(items))
+    # ---- bursts handed over in 2-3 chunks (short reads with more queued), default paste threshold -----------------------
+    items = chunk_items(ctx)
+    for it, w in zip(items, kc.par_map(oracle_chunks, items, procs, chunksize=50)):
+        case = ("chunks", it[0], hx(it[1]), list(it[2]))
+        ctx.count(case, nontrivial=True, tag="burst-in-chunks")
+        if w:
+            ctx.violation("a recognised sequence / character arriving in one burst that the OS hands over in chunks is " + w, case, None)
+    ctx.exhaustive.append("bursts handed over in 2-3 chunks (each os.read returns one chunk, first chunk above the paste threshold "
+                          "and shorter than READ_SIZE), chunk boundary at every position inside the unit: %d" % len(items))
     # ---- D12 witness replayed on the real code --------------------------------------------------------------
     for enc in ("utf8", "ascii"):
         try:
@@ -799,6 +845,9 @@ def replay(payload):
         op, fam, alias, mode, full, h = c
         base = op.split("-")[0]
         return dict(case=c, under_alias=impl((base, alias, mode, full, h)), under_canonical_name=impl((base, fam, mode, full, h)))
+    if c[0] == "chunks":
+        _, enc, h, cuts = c
+        return dict(case=c, oracle=oracle_chunks((enc, unhx(h), tuple(cuts))))
     if c[0] == "pieces":
         _, enc, mode, sends, hs = c
         pieces = [unhx(h) for h in hs]
